@@ -172,6 +172,14 @@ def translator_tie(chk, tie_files, gen_files):
                 if n_closed != n_thm:
                     res["status"] = "unavailable"
                     res["log"] = out[-1500:]
+    if res["status"] != "ok" and not res["untranslatable"]:
+        # the source was translated, but the regenerated definitions are no longer proved equal to the hand model:
+        # the model is not shown to describe the code for all arguments any more.  If the search and the correspondence
+        # run find no failing input this still is reported (VIOLATION ... no-failing-input-found).
+        res["status"] = "broken"
+        chk.obligation_failures.append("translator tie: %s no longer proves the regenerated definitions equal to the hand model"
+                                       % res.get("failed_file", ",".join(tie_files)))
+        chk.build_log = res.get("log", "")
     chk.ties["translator"] = res
     return res["status"] == "ok"
 
